@@ -114,4 +114,18 @@ def OneToOne (s : List (K × V)) : Prop := (s.map Prod.fst).Nodup ∧ (s.map Pro
 
 end BM
 
+/-! ### persistent ordered set: every object owns a list of items (in insertion order) and sees its
+     ancestors' items after its own -/
+namespace PS
+
+def items (T : Type) [DecidableEq T] : PSItems T where
+  I := List T
+  nil := []
+  contains := fun l x => l.contains x
+  add := fun l x => l ++ [x]
+  list := id
+  nonEmpty := fun l => !l.isEmpty
+
+end PS
+
 end Verif.Spec.DS
